@@ -559,6 +559,13 @@ def generate(rng, tier):
             hdr = c14.macsec_hdr(rng, ptype, sci)
             for n in list(range(0, 70)) + [126, 127, 128, 129, 191, 192, 254, 255, 256, 257, 319, 320, 65535, 65536]:
                 yield Case(["set.macsec.set_payload_len\t%s\t%d" % (hx(hdr), n)], {"k": "macsec_spl", "hdr": hx(hdr), "n": n})
+    # the two decoders of every header that packs bit fields (slice and io::Read): each octet of a well-formed header
+    # swept over all 256 values - both have to read the same fields out of the same bits (C06's operations)
+    from . import c06
+    import random as _random
+    for c in c06.reader_byte_sweeps(_random.Random(rng.randrange(1 << 30)), tier):
+        if c.meta.get("sweep") in ("vlan", "macsec", "ipv4", "ipv6", "frag", "iph", "tcp"):
+            yield Case(list(c.lines), {"k": "rsweep"})
     # the public constants of the bounded types (ZERO / MAX / value tables / RFC code points): each has to be
     # the in-range value its name says
     yield Case(["impl.bf.consts"], {"k": "consts"})
@@ -744,6 +751,19 @@ def oracle(c):
                 if c.impl[i] != want:
                     out.append(("range-accept", {"line": c.lines[i], "got": c.impl[i], "want": want}))
                     break
+        elif k == "rsweep":
+            from . import c06
+            for line, o in zip(c.lines, c.impl):
+                if o and o.startswith("slice=") and "|read=" in o:
+                    s_, r_ = o[6:].split("|read=", 1)
+                    arg = line.split("\t")[-1]
+                    data = bytes.fromhex(arg) if arg != "-" else b""
+                    if line.startswith("impl.dec.read_iph") and len(data) >= 6 and data[0] >> 4 == 6 and data[4] == 0 and data[5] == 0:
+                        continue
+                    tmp = []
+                    c06.check_reader(line.split("\t", 1)[0], s_, r_, tmp)
+                    for n, d in tmp:
+                        out.append(("decoders-read-different-fields:" + n, dict(d, line=line[:200])))
         elif k == "macsec_spl":
             o = c.impl[0] or ""
             hdr = bytes.fromhex(c.meta["hdr"])
